@@ -194,6 +194,28 @@ def jobs(sc):
                 for L in lays:
                     yield ("B", L, base.copy(), w, None)
                     yield ("B", L, np.stack([base, base[::-1] * 1.0 + 1.0], axis=1), w, None)
+    # L: medium-size data (11-48 rows per call, cells of 5-20 rows): code that only engages above a size threshold
+    #    (bincount vs bins() switches, chunked quantiles, caches) is out of reach of the exhaustive tiny families
+    xs = [20261005]
+
+    def nxt(m):
+        xs[0] = (xs[0] * 48271) % 2147483647
+        return xs[0] % m
+
+    for N in (11, 24, 48):
+        for variant in range(3):
+            f = np.array([GRID[nxt(4)] if variant != 1 else float(nxt(97)) / 7.0 for _ in range(N)], dtype=float)
+            if variant:
+                for h in range(0, N, 5 + variant):
+                    f[h] = NaN
+            f2 = np.stack([f, np.array([float(nxt(50)) / 3.0 for _ in range(N)]), f[::-1] * 2.0], axis=1)
+            w = (None, np.array([float(nxt(5)) * 0.7 for _ in range(N)]), np.array([(NaN if nxt(9) == 0 else 0.1 * (1 + nxt(6))) for _ in range(N)]))[variant]
+            d1 = np.array([nxt(3) for _ in range(N)], dtype=np.int64)
+            d2 = np.array([nxt(2) for _ in range(N)], dtype=np.int64)
+            for L in (([], ()), ([d1], (3,)), ([d1, d2], (3, 2)), ([np.zeros(N, dtype=np.int64)], (2,))):
+                yield ("B", L, f.copy(), w, None)
+                yield ("B", L, f2[:, :2].copy(), w, None)
+                yield ("B", L, f2.copy(), None, None)
     # T: min / max of int facts with validity and of datetime64 facts
     dates = np.array(["2020-01-01", "2020-01-03", "2019-06-30", "NaT"], dtype="datetime64[D]")
     ints = (-3, 0, 1, 7)
